@@ -2,7 +2,7 @@
 from harness import core, connlib, serverlib
 
 PROP = "C01"
-LEAN_MODULES = ["MpgsModel.Props.C01"]
+LEAN_MODULES = ["MpgsModel.Props.C01", "MpgsModel.Props.C01Loop"]
 MODEL_MODULES = ["MpgsModel.Model.Conn", "MpgsModel.Model.ToyAead", "MpgsModel.Model.Server"]
 NS = "Mpgs.Conn."
 THEOREMS = [
@@ -12,8 +12,13 @@ THEOREMS = [
     (NS + "C01_prekey_single_hello", "full"),
     (NS + "C01_history_noninterference", "full"),
     (NS + "C01_roles_do_not_read_dropped", "full"),
+    ("Mpgs.Server.C01_loop_halfopen_untouched", "full"),
 ]
 ASSUMPTIONS = [
+    "at the server loop (C01_loop_halfopen_untouched): a datagram from an address that has a half-open connection and that does not decode "
+    "under that connection's key - a complete CRC-valid CLIENT_HELLO forged in the name of a connecting client included - does not "
+    "replace, re-key or alter that connection (same identity, key, token, status; at most the dropped counter moves), produces no event "
+    "and leaves the connected pool alone; the monitor `halfopen-connection-replaced` states the same on the real loop",
     "INT-CTXT of AES-GCM (a datagram not produced with the key does not open) is assumed outside Lean; the theorems "
     "state that an endpoint's state changes only if `aopen` accepts bytes 20.. under the session key with nonce = "
     "bytes 0..11 and AAD = bytes 0..19 of exactly this datagram",
